@@ -1,15 +1,18 @@
 (* C08 - index renaming is capture-free and yields the documented names.
    Property theorems only; models in Models/Substitution.v, Models/Registry.v,
    proofs in Models/SubstitutionProofs.v, Models/RegistryProofs.v. *)
-From Coq Require Import ZArith NArith List.
+From Coq Require Import ZArith NArith List Permutation.
 From ADC Require Import Core.Scalar Core.Index Core.Expr Core.Swap Core.Canon Core.Equiv.
-From ADC Require Import Models.Substitution Models.SubstitutionProofs.
+From ADC Require Import Models.Substitution Models.SubstitutionProofs Models.Renaming
+                        Models.Registry Models.RegistryProofs.
 Import ListNotations.
 
-(* Applying the ordered substitution list one pair after another equals the
-   simultaneous substitution, for every dict with distinct keys (chains, cycles,
-   many-to-one, identity pairs, any insertion order) and every index that is not
-   one of the temporaries created by the call. *)
+(* ---- ordered substitution list = simultaneous substitution ---- *)
+(* Applying the list returned by order_substitutions one pair after another
+   equals the simultaneous substitution, for every dict with distinct keys
+   (chains, cycles, many-to-one, identity pairs, any insertion order) whose
+   indices are older than the temporaries, and every index that is not one
+   of the temporaries created by the call. *)
 Theorem C08_order_substitutions_correct :
   forall (u0 : N) (m : list (index * index)) (x : index),
     NoDup (map fst m) -> older u0 m -> ~ In x (temporaries u0 m) ->
@@ -17,6 +20,7 @@ Theorem C08_order_substitutions_correct :
 Proof. exact order_substitutions_correct. Qed.
 Print Assumptions C08_order_substitutions_correct.
 
+(* ---- permutation operators ---- *)
 (* The dict composed by Container.permute, applied simultaneously, equals the
    transpositions applied one after another, for every list of pairs. *)
 Theorem C08_permute_map_correct :
@@ -33,6 +37,7 @@ Theorem C08_permute_subs_correct :
 Proof. exact permute_subs_correct. Qed.
 Print Assumptions C08_permute_subs_correct.
 
+(* ---- lowest available names ---- *)
 (* get_lowest_avail_indices returns the first n unused names of the infinite
    stream base, base1, base2, ... (every sufficiently long prefix gives the same
    answer), exactly n of them, duplicate-free, disjoint from used, of the
@@ -46,3 +51,166 @@ Theorem C08_lowest_avail_spec :
     (forall s, In s (lowest_avail n used sp) -> ~ In s used /\ In (fst s) (base sp)).
 Proof. exact lowest_avail_spec. Qed.
 Print Assumptions C08_lowest_avail_spec.
+
+(* ---- substitute_contracted: the renaming ---- *)
+(* For every duplicate-free list of contracted indices and every target list:
+   exactly the contracted indices are renamed, no two are merged, space and spin
+   are kept, no target is hit, and per (space, spin) the new names are the lowest
+   unused names in the order of the contracted indices. *)
+Theorem C08_substitute_contracted_renaming :
+  forall (c tg : list index), NoDup c ->
+    Permutation c (map fst (sc_map c tg)) /\
+    NoDup (map snd (sc_map c tg)) /\
+    (forall o n, In (o, n) (sc_map c tg) -> same_sort o n = true /\ ~ In n tg /\ iuid n = 0%N) /\
+    (forall k l, In (k, l) (group_by_sort c) ->
+       map (subst_sim (sc_map c tg)) l =
+       map (reg_index k) (lowest_avail (length l) (used_names tg k) (fst k))).
+Proof. exact sc_map_spec. Qed.
+Print Assumptions C08_substitute_contracted_renaming.
+
+(* The ordered list built by substitute_contracted realises this renaming. *)
+Theorem C08_substitute_contracted_subs :
+  forall (u0 : N) (c tg : list index) (x : index), NoDup c ->
+    (forall y, In y c -> (iuid y < u0)%N) -> (0 < u0)%N -> (iuid x < u0)%N ->
+    subst_seq (sc_subs u0 c tg) x = subst_sim (sc_map c tg) x.
+Proof. exact sc_subs_correct. Qed.
+Print Assumptions C08_substitute_contracted_subs.
+
+(* ---- the value clause ---- *)
+(* Renaming contracted indices by sort-preserving transpositions that avoid the
+   targets leaves the value of a term unchanged in every tensor model. *)
+Theorem C08_renaming_by_transpositions_value :
+  forall (S : Scalar) (T : tmodel S) (tg : list index) (r : env) (sw : swaps) (t : term),
+    swaps_ok tg sw = true ->
+    eval_term S T tg r (apply_swaps sw t) = eval_term S T tg r t.
+Proof. exact apply_swaps_sound. Qed.
+Print Assumptions C08_renaming_by_transpositions_value.
+
+(* Every (term, renamed term) pair accepted by the validator has the same value in
+   every model respecting the declared symmetries (checked on every observed
+   output of substitute_contracted / substitute_with_generic). *)
+Theorem C08_renamed_pair_value :
+  forall (S : Scalar) (T : tmodel S), respects S T ->
+  forall tg c1 c2 e1 e2, check_equiv tg c1 c2 e1 e2 = true ->
+  forall r, eval S T tg r e1 = eval S T tg r e2.
+Proof. exact check_equiv_sound. Qed.
+Print Assumptions C08_renamed_pair_value.
+
+(* An injective, space-and-spin preserving renaming (given as a dict) of indices
+   that are not targets onto non-targets, covering every non-target index of the
+   term, leaves the value of the term unchanged: it is a product of admissible
+   transpositions.  (Holds for the fresh generic names of substitute_with_generic
+   as well as for the lowest names of substitute_contracted.) *)
+Theorem C08_renaming_preserves_value :
+  forall (S : Scalar) (T : tmodel S) (tg : list index) (r : env) (s : list (index * index)) (t : term),
+    admissible tg s ->
+    (forall x, In x (term_idx t) -> In x (map fst s) \/ In x tg) ->
+    eval_term S T tg r (map_term (subst_sim s) t) = eval_term S T tg r t.
+Proof. exact renaming_preserves_value. Qed.
+Print Assumptions C08_renaming_preserves_value.
+
+(* substitute_contracted: renaming all contracted indices of a term to the lowest
+   unused names leaves its value unchanged - every term, every target list, every
+   tensor model, every assignment of the targets. *)
+Theorem C08_substitute_contracted_value :
+  forall (S : Scalar) (T : tmodel S) (tg : list index) (r : env) (t : term),
+    eval_term S T tg r (map_term (subst_sim (sc_map (contracted tg t) tg)) t) = eval_term S T tg r t.
+Proof. exact substitute_contracted_value. Qed.
+Print Assumptions C08_substitute_contracted_value.
+
+(* While the ordered list is applied pair by pair, two indices that the dict keeps
+   apart are never identified, not even transiently (no spurious zero such as
+   t_ijcd -> t_iicd can appear in an intermediate expression). *)
+Theorem C08_subst_seq_no_collision :
+  forall (u0 : N) (m l1 l2 : list (index * index)) (x y : index),
+    NoDup (map fst m) -> older u0 m -> order_substitutions u0 m = l1 ++ l2 ->
+    ~ In x (temporaries u0 m) -> ~ In y (temporaries u0 m) ->
+    subst_sim m x <> subst_sim m y -> subst_seq l1 x <> subst_seq l1 y.
+Proof. exact subst_seq_no_collision. Qed.
+Print Assumptions C08_subst_seq_no_collision.
+
+(* minimize_tensor_indices: the returned tuple is the image of the input under
+   the returned transpositions applied one after another. *)
+Theorem C08_minimize_image :
+  forall (ix : list index) (tgn : list (sort * list name)),
+    fst (minimize_tensor_indices ix tgn) =
+    map (swaps_seq (snd (minimize_tensor_indices ix tgn))) ix.
+Proof. exact minimize_image. Qed.
+Print Assumptions C08_minimize_image.
+
+(* ---- the registry, over all operation histories ---- *)
+(* After every history of get_indices / get_generic_indices / get_symbols calls:
+   symbol keys and object identities are duplicate-free, the unused generic names
+   are not in the symbol table, carry a base letter of their space and a number
+   >= 3 and < counter, and are duplicate-free. *)
+Theorem C08_registry_invariant : forall ops : list op, Inv (fst (history ops)).
+Proof. exact registry_invariant. Qed.
+Print Assumptions C08_registry_invariant.
+
+(* Any two indices returned at any two points of any history: same (space, spin,
+   name) iff identical object. *)
+Theorem C08_get_indices_identity :
+  forall (ops : list op) (e1 e2 : entry),
+    In e1 (outs_entries (snd (history ops))) -> In e2 (outs_entries (snd (history ops))) ->
+    (e_key e1 = e_key e2 <-> e_uid e1 = e_uid e2).
+Proof. exact get_indices_identity. Qed.
+Print Assumptions C08_get_indices_identity.
+
+(* A successful get_indices answers every request with an index of the requested
+   name and spin (so the identity theorem is not vacuous). *)
+Theorem C08_get_indices_complete :
+  forall st reqs st' r, Inv st -> get_indices st reqs = (st', Some r) ->
+  forall nm spn, In (nm, spn) reqs ->
+    exists sp u, space_of_letter (fst nm) = Some sp /\ In ((sp, spn), nm, u) (ret_entries r).
+Proof. exact get_indices_complete. Qed.
+Print Assumptions C08_get_indices_complete.
+
+(* The names returned by get_generic_indices after any history were never
+   returned by any earlier operation of that history ... *)
+Theorem C08_generic_never_handed_out_before :
+  forall (ops : list op) (reqs : list (sort * nat)) (e e' : entry),
+    In e (out_entries (snd (step (fst (history ops)) (OpGeneric reqs)))) ->
+    In e' (outs_entries (snd (history ops))) ->
+    e_key e <> e_key e'.
+Proof. exact generic_never_handed_out_before. Qed.
+Print Assumptions C08_generic_never_handed_out_before.
+
+(* ... and are new objects. *)
+Theorem C08_generic_objects_are_new :
+  forall (ops : list op) (reqs : list (sort * nat)) (e : entry),
+    In e (out_entries (snd (step (fst (history ops)) (OpGeneric reqs)))) ->
+    ~ In e (symbols (fst (history ops))).
+Proof. exact generic_objects_are_new. Qed.
+Print Assumptions C08_generic_objects_are_new.
+
+(* The bound on the generation loop used by the model always reaches the exit
+   condition of `while n > len(generic)`. *)
+Theorem C08_generation_loop_exits :
+  forall st k n, n <= length (generic (gen_loop (gen_fuel st n) st k n) k).
+Proof. exact gen_loop_exit. Qed.
+Print Assumptions C08_generation_loop_exits.
+
+(* ---- the hypotheses are satisfiable: a 3-cycle with a chain hanging on it ---- *)
+Example C08_example :
+  let i := Idx Occ NoSpin 105 0 0 in let j := Idx Occ NoSpin 106 0 0 in
+  let k := Idx Occ NoSpin 107 0 0 in let l := Idx Occ NoSpin 108 0 0 in
+  let m := [(l, i); (i, j); (j, k); (k, i)] in
+  NoDup (map fst m) /\ older 1 m /\ ~ In l (temporaries 1 m) /\
+  order_substitutions 1 m = [(l, tmp 1); (i, tmp 2); (j, tmp 3); (k, tmp 4);
+                             (tmp 1, i); (tmp 2, j); (tmp 3, k); (tmp 4, i)] /\
+  map (subst_seq (order_substitutions 1 m)) [i; j; k; l] = [j; k; i; i] /\
+  lowest_avail 3 [(105, 0); (107, 0)]%N Occ = [(106, 0); (108, 0); (109, 0)]%N /\
+  (exists u, snd (step (fst (history [OpGet [((105, 5)%N, NoSpin)]])) (OpGeneric [((Occ, NoSpin), 8)]))
+             = ORet [((Occ, NoSpin), u)] /\
+             map e_name u = [(105,3); (106,3); (107,3); (108,3); (109,3); (110,3); (111,3); (105,4)]%N).
+Proof.
+  cbv zeta. split; [|split; [|split; [|split; [|split; [|split]]]]].
+  - repeat constructor; simpl; intuition discriminate.
+  - intros a b H0; simpl in H0.
+    repeat (destruct H0 as [H0|H0]; [inversion H0; subst; simpl; split; reflexivity|]). destruct H0.
+  - vm_compute. intros H0. repeat (destruct H0 as [H0|H0]; [discriminate|]). destruct H0.
+  - vm_compute. reflexivity.
+  - vm_compute. reflexivity.
+  - vm_compute. reflexivity.
+  - vm_compute. eexists. split; reflexivity.
+Qed.
